@@ -1,11 +1,13 @@
 """C09 — generators, the spec-level oracle, and the project renderer for (possibly ill-formed) task graphs.
 
 spec = {"tasks": [{"id": int, "module": int, "deps": [n…], "prods": [n…], "after": [task id…],
-                   "after_style": "expr"|"func"|"list", "spell": {"<n>": "rel"|"dot"|"dotdot"|"abs"|"absdd"}}],
+                   "after_style": "expr"|"func"|"list", "spell": {"<n>": "rel"|"dot"|"dotdot"|"abs"|"absdd"},
+                   "dep_form": "bare"|"list"|"tuple"|"dict"|"kwargs", "prod_style": "return"|"param"}],
         "py": [n…],        # node ids that are in-memory PythonNodes (all other nodes are files data/n<n>.txt)
         "pk": [n…],        # node ids that are PickleNodes (file data/n<n>.txt holding a pickle)
         "dirs": [n…],      # node ids that are DirectoryNode(root_dir=data/dir<n>, pattern="*.txt") — declared as products only
         "subdirs": bool,   # module m lives in its own folder m<m>/task_m<m>.py (relative spellings then start with ../)
+        "pyval": {"<n>": 1|2},  # in-memory nodes created with an initial value (None / 0) instead of value-less
         "opts": {…},       # build options that must be irrelevant to well-formedness (check_casing_of_paths, force, dry_run, verbose, capture)
         "wrap": [[t, n]…], # (API level only) dependency declared through a wrapping PythonNode
         "stale": bool}     # product files already exist before the first build
@@ -346,14 +348,23 @@ def gen_shared(rng, k, spell_mode="mixed", py=False, kind=None):
         tasks.append(t)
     tasks.append(_task(k, deps=[n] if kind != "dir" else [299], prods=[320], module=0))
     tasks.append(_task(k + 1, deps=[299], prods=[321], module=1))
-    return {"tasks": tasks, "py": [n] if kind == "py" else [], "pk": [n] if kind == "pk" else [], "dirs": [n] if kind == "dir" else [],
-            "wrap": [], "stale": rng.random() < 0.5, "subdirs": rng.random() < 0.5}
+    return add_forms(rng, {"tasks": tasks, "py": [n] if kind == "py" else [], "pk": [n] if kind == "pk" else [], "dirs": [n] if kind == "dir" else [],
+                           "wrap": [], "stale": rng.random() < 0.5, "subdirs": rng.random() < 0.5})
 
 
 def gen_opts(rng):
     """Build options that have nothing to do with the shape of the task graph."""
     return {"check_casing_of_paths": rng.random() < 0.5, "force": rng.random() < 0.25, "dry_run": rng.random() < 0.2,
             "verbose": rng.choice([0, 1, 2]), "capture": rng.choice(["fd", "sys", "no", "tee-sys"])}
+
+
+def add_forms(rng, spec, val_p=0.5, cont_p=0.5):
+    """How in-memory nodes are created (value-less, or already holding a value) and how a task declares its in-memory /
+    pickle dependencies (bare annotated arguments, or inside one list / tuple / dict / @task(kwargs=) container with plain values)."""
+    spec["pyval"] = {str(n): rng.choice([1, 2]) for n in spec.get("py", []) if rng.random() < val_p}
+    for t in spec["tasks"]:
+        t["dep_form"] = rng.choice(["list", "tuple", "dict", "kwargs"]) if rng.random() < cont_p else "bare"
+    return spec
 
 
 def add_kinds(rng, spec, pk_p=0.15, dir_p=0.3):
@@ -371,6 +382,7 @@ def add_kinds(rng, spec, pk_p=0.15, dir_p=0.3):
     for t in spec["tasks"]:
         t["prod_style"] = rng.choice(["return", "param"])
     spec["subdirs"] = rng.random() < 0.35
+    add_forms(rng, spec)
     return spec
 
 
@@ -461,9 +473,10 @@ ROOT = Path(__file__).resolve().parent
 LOG = ROOT / ".verif_log"
 PY = {}
 
-def py(n):
+def py(n, init=0):
+    """init=0: a value-less node; 1: created with value=None; 2: created with value=0 (it already holds a value at collection)"""
     if n not in PY:
-        PY[n] = PythonNode(name=f"py{n}")
+        PY[n] = PythonNode(name=f"py{n}") if init == 0 else PythonNode(name=f"py{n}", value=None if init == 1 else 0)
     return PY[n]
 
 def log(line):
@@ -512,6 +525,7 @@ def render_module(spec, m):
     pk = set(spec.get("pk", []))
     dirs = set(spec.get("dirs", []))
     sub = bool(spec.get("subdirs"))
+    pyval = {str(k): v for k, v in (spec.get("pyval") or {}).items()}
     tasks = sorted((t for t in spec["tasks"] if t["module"] == m), key=lambda t: t["id"])
     here = "Path(__file__).resolve().parent" + (".parent" if sub else "")
     L = [f"# C09 module {m}", "from __future__ import annotations", "from pathlib import Path", "from typing import Annotated", "from typing import Any",
@@ -526,7 +540,7 @@ def render_module(spec, m):
 
         def node_expr(n):
             if n in py:
-                return f"rt.py({n})"
+                return f"rt.py({n}, {pyval[str(n)]})" if str(n) in pyval else f"rt.py({n})"
             if n in pk:
                 return f"PickleNode(path={pe(n)})"
             return pe(n)
@@ -545,9 +559,26 @@ def render_module(spec, m):
                 kw.append("after=" + repr(" or ".join(project.tname(a) for a in aft)))
             forms[tid] = st
         nodef, withdef, path_prods, save_prods, dir_prods = [], [], [], [], []
+        special_deps = [n for n in t["deps"] if n in py or n in pk]
+        form = t.get("dep_form", "bare") if special_deps else "bare"
+        if form != "bare":
+            # the in-memory / pickle dependencies sit inside ONE container argument together with plain values
+            items = [node_expr(n) for n in special_deps]
+            if form == "dict":
+                cont = "{" + ", ".join([f"'a{i}': {e}" for i, e in enumerate(items)] + ["'k': 5", "'s': 'plain'"]) + "}"
+            elif form == "tuple":
+                cont = "(" + ", ".join(["5"] + items + ["'plain'"]) + ",)"
+            else:
+                cont = "[" + ", ".join(items[:1] + ["5"] + items[1:] + ["'plain'"]) + "]"
+            if form == "kwargs":
+                kw.append("kwargs={'parts': " + cont + "}")
+                nodef.append("parts")
+            else:
+                withdef.append(f"parts={cont}")
         for n in t["deps"]:
             if n in py or n in pk:
-                nodef.append(f"d{n}: Annotated[Any, {node_expr(n)}]")
+                if form == "bare":
+                    nodef.append(f"d{n}: Annotated[Any, {node_expr(n)}]")
             else:
                 withdef.append(f"d{n}: Path = {pe(n)}")
         uniq = list(dict.fromkeys(t["prods"]))
